@@ -55,7 +55,7 @@ def gen_cases(tier, seed):
             uq = int(rng.integers(1, 4))
         out.append({"cls": impl + ":" + band, "impl": impl, "N": N, "dt": dt, "offset": float(rng.uniform(-1e-6, 1e-6)),
                     "band": [float(lo), float(hi)], "amp": str(rng.choice(["constant", "constant", "callable", "scalar-only", "default"])),
-                    "uq": uq, "rms_mode": str(rng.choice(["rms", "rms", "TR"]))})
+                    "uq": uq, "rms_mode": str(rng.choice(["rms", "rms", "TR", "rms", "TR", "zero", "zero+TR"]))})
     return out
 
 
@@ -72,6 +72,10 @@ def build(case, t, sg):
         kw["f_amplitude"] = lambda f: 1.0 + 0.5 * float(np.cos(float(f) / fny * 7))
     if case["rms_mode"] == "rms":
         kw["rms_voltage"] = 2.5
+    elif case["rms_mode"] == "zero":
+        kw["rms_voltage"] = [0, 0.0][case["N"] % 2]         # a requested RMS of exactly zero
+    elif case["rms_mode"] == "zero+TR":
+        kw["rms_voltage"], kw["temperature"], kw["resistance"] = [0, 0.0][case["N"] % 2], 300.0, 50.0     # the explicit RMS takes precedence
     else:
         kw["temperature"], kw["resistance"] = 300.0, 50.0
     return cls(t, band, **kw), band, fny
@@ -120,8 +124,19 @@ def run_case(case):
         m, se = float(np.mean(ms)), float(np.std(ms) / np.sqrt(len(ms)))
         v.close("default Rayleigh amplitudes give the requested RMS on average", abs(m - 1.0), 5.5 * se + (0.0 if case["impl"] == "fft" else 0.02), mean=m, se=se)
         return v.result(decided=True, nontrivial=True, sample={"impl": case["impl"], "realisations": 300, "mean_rms2_over_requested": m, "se": se})
+    if rng.random() < 0.5:
+        # another noise object with the same sampling, band and options but another window, created and read first
+        decoy, _, _ = build(case, t + float(rng.choice([-1, 1])) * (3.5 + 10 * rng.random()) * N * dt, sg)
+        decoy.values
     n, band, fny = build(case, t, sg)
     impl = case["impl"]
+    if case["rms_mode"].startswith("zero"):
+        z_ = np.array(n.values)
+        v.check(float(n.rms) == 0.0 and z_.shape == (N,) and not np.any(z_), "a requested RMS voltage of zero gives rms == 0 and an all-zero waveform", rms=float(n.rms), maxabs=float(np.max(np.abs(z_))) if z_.size else None,
+                temperature_and_resistance_also_given=case["rms_mode"] == "zero+TR")
+        w_ = np.array(n.with_times(t[0] + np.arange(7) * dt * 1.3).values)
+        v.check(not np.any(w_), "a requested RMS voltage of zero gives rms == 0 and an all-zero waveform", regridded=True)
+        return v.result(decided=True, nontrivial=True, sample={"impl": impl, "N": N, "dt": dt, "rms_mode": case["rms_mode"], "rms": float(n.rms)})
     nf = len(n.freqs)
     sample = {"impl": impl, "N": N, "dt": dt, "band_over_nyquist": case["band"], "uniqueness": case["uq"], "amplitudes": case["amp"], "n_freqs": nf}
     vals = np.array(n.values)
